@@ -114,9 +114,37 @@ def install():
     for k in ('dumps', 'loads', 'dump', 'load', 'JSONDecodeError'):
         setattr(sj, k, getattr(_json, k))
     sys.modules['simplejson'] = sj
-    t = types.ModuleType('tqdm')
-    t.tqdm = lambda it, **k: it
-    sys.modules['tqdm'] = t
+    class _tqdm:
+        """progress bar stand-in: iterates its argument, accepts the usual calls and does nothing"""
+
+        def __init__(self, iterable=None, *a, **k):
+            self.iterable = iterable
+            self.n = 0
+            self.total = k.get('total')
+
+        def __iter__(self):
+            return iter(self.iterable if self.iterable is not None else ())
+
+        def __len__(self):
+            return len(self.iterable)
+
+        def __enter__(self):
+            return self
+
+        def __exit__(self, *a):
+            return False
+
+        def __getattr__(self, name):
+            if name.startswith('__'):
+                raise AttributeError(name)
+            return lambda *a, **k: None         # update, close, set_postfix, set_description, refresh, write, ...
+    for name in ('tqdm', 'tqdm.auto', 'tqdm.std', 'tqdm.notebook'):
+        t = types.ModuleType(name)
+        t.tqdm = _tqdm
+        t.trange = lambda *a, **k: range(*a)
+        t.__path__ = []
+        sys.modules[name] = t
+    sys.modules['tqdm'].auto = sys.modules['tqdm.auto']
     warnings.simplefilter('ignore')
     logging.disable(logging.CRITICAL)
 
